@@ -7,6 +7,7 @@ import random
 
 from . import c02_e2 as b2
 from . import c02_e3 as b3
+from . import c02_rerun as rr
 from . import common, e2, e3
 from .c02_witness import VERDICTS, WITNESSES
 
@@ -27,7 +28,18 @@ RULE = ("E2 both orders: states reached by the seeded e2 generator (real Workflo
         "return-code classes and (for one two-party conflict) error texts are compared; timing projects "
         "(a consumer reads an undeclared file and waits at a gate, its producer stops, unrelated steps start "
         "and stop in seeded, partly overlapping orders, then the consumer amends the file) under -j1 versus "
-        "-j6 with four such gate orders and one random order: files and graph digests must agree")
+        "-j6 with four such gate orders and one random order: files and graph digests must agree. "
+        "Re-executed steps (E2, c02_rerun): a step S whose script changed is executed again "
+        "(reset_for_rerun detaches its product subtree, then it re-declares its producers one request at a "
+        "time: unchanged / changed specification / dropped) while a running sibling U amends inputs among the "
+        "outputs of that subtree or defines a consumer of them; U's request is placed at EVERY position among "
+        "S's transactions, both steps complete (defer exactly when the real amend_step reported unavailable or "
+        "unfresh inputs) and the real Scheduler.pop_next_job drives the build to quiescence; final dump "
+        "(incl. deferred flags) and return-code class must not depend on the position; every executed sequence "
+        "is replayed by the model (Commute.rerun_check). E3 (gen_rerun): second builds of generated projects in "
+        "which sub-plans and sibling workers changed trivially, workers amend / define consumers of files "
+        "produced under those sub-plans (also two levels below), -j1 versus -j4 with three directed gate orders "
+        "(workers first, workers inside the re-execution, sub-plans first) and two seeded ones")
 TRUSTED_BASE = [
     "Coq 8.16.1 kernel; vm_compute in the refutation lemmas, Examples and the correspondence evaluation",
     "Print Assumptions: Closed under the global context for every C02 theorem",
@@ -159,6 +171,38 @@ def _states(ctx):
     return ctx.c02_states
 
 
+def _reruns(ctx):
+    if getattr(ctx, "c02_reruns", None) is None:
+        n = ctx.scale(70, 1200)
+        seeds = [100000 * ctx.seed + i for i in range(n)]
+        ctx.c02_reruns = e3.pool_map(rr.run_scenario, seeds, nproc=6)
+    return ctx.c02_reruns
+
+
+def _cq_tr(ops):
+    return common.coq_list([f"({_cq_op(o)}, {e2.OUTC[oc]})" for o, oc in ops])
+
+
+def _rerun_term(r, name="rerun_check"):
+    nbase = r["nbase"]
+    base = r["model"][0][0][:nbase]
+    cases = common.coq_list([f"({_cq_tr(ops[nbase:])}, {e2.cq_dump(d)})" for ops, d in r["model"]])
+    return f"{name} 3 {_cq_tr(base)} {cases}"
+
+
+def _rerun_wit(r, diff=None):
+    sc = r["sc"]
+    w = {"kind": "e2-rerun", "seed": r["seed"], "variant": sc["variant"], "S": sc["S"], "U": sc["U"],
+         "first_declarations_of_S": [repr(f) for f in sc["fam"]],
+         "second_declarations_of_S": [repr(f) for f in sc["redecl"]], "request_of_U": repr(sc["ureq"])}
+    if diff is not None:
+        w.update({"position": diff["k"], "U_completes_after_S": diff["u_late"], "rc_class": diff["rc"],
+                  "only_in_position0_vs_k": diff["only_in_pos0_vs_k"], "replies_to_U": diff["replies"],
+                  "transactions_position0": [repr(o) for o, _ in r["model"][0][0][r["nbase"]:]],
+                  "transactions_position_k": [repr(o) for o, _ in r["model"][diff["run"]][0][r["nbase"]:]]})
+    return w
+
+
 def _cq_exp(order):
     outs, dump = order
     return f"({b2.cq_outcome(outs[0])}, {b2.cq_outcome(outs[1])}, {e2.cq_dump(dump)})"
@@ -206,6 +250,24 @@ def correspondence(ctx):
         ctx.add_failure("correspondence", "E2:both-orders", f"E2:both-orders:{p['kind']}",
                         f"model and implementation disagree on a pair applied in both orders (state {st['seed']})",
                         witness=dict(_wit(p), trace=[repr(o) for o in st["ops"]]))
+    # re-executed steps: every executed sequence against the model
+    reruns = [r for r in _reruns(ctx) if "skip" not in r]
+    rchecks = [_rerun_term(r) for r in reruns]
+    for r in reruns:
+        ctx.count("model-vs-impl rerun sequences", len(r["model"]))
+    badr = common.run_cases(ctx, "rerun", HEADER, rchecks, chunk=6)
+    ctx.traces_validated += len(rchecks) - len(badr)
+    for b in badr[:3]:
+        r = reruns[b]
+        v = common.eval_terms(ctx, "rerundiag", HEADER, [_rerun_term(r, "rerun_bad")])
+        flags = [x == "true" for x in (v[0] or "").replace("[", " ").replace("]", " ").replace(";", " ").split()]
+        k = flags.index(False) if False in flags else 0
+        ops, final = r["model"][k]
+        ctx.add_failure("correspondence", "E2:rerun", f"E2:rerun:{r['sc']['variant']}:{r['sc']['ukind']}",
+                        f"model and implementation disagree on a sequence of the rerun oracle (scenario {r['seed']}, "
+                        f"run {k}; base history accepted by the model: {bool(flags)})",
+                        witness=dict(_rerun_wit(r), run=k, transactions=[repr(o) + " -> " + oc for o, oc in ops],
+                                     final_steps=[list(x) for x in final["steps"]]))
     # a sample of pairs again with two replayed databases and real transactions
     rng = random.Random(f"c02-replay-{ctx.seed}")
     nrep = ctx.scale(12, 60)
@@ -303,6 +365,32 @@ def oracle(ctx):
                                 f"do not commute on the real Workflow ({v})",
                                 witness=dict(_wit(p), trace=[repr(o) for o in st["ops"]]))
             # outside the fragment: counted (see the witnesses / scenarios for the classes found)
+    # ---- E2: a re-executed step against a sibling's request, every arrival position
+    for r in _reruns(ctx):
+        if "skip" in r:
+            ctx.count("e2r:base-state-not-reached")
+            continue
+        sc = r["sc"]
+        ctx.case(("e2r", r["seed"]), nontrivial=len(r["verdicts"]) > 1 or r["verdicts"] == ["defer"])
+        ctx.count(f"e2r:{sc['variant']}:{sc['ukind']}:replies={'/'.join(map(str, r['verdicts']))}")
+        ctx.count(f"e2r:rc={'/'.join(r['rcs'])}")
+        ctx.count("e2r:runs", r["nruns"])
+        for dff in r["diffs"][:1]:
+            what = "rc-class" if dff["rc"][0] != dff["rc"][1] else ("not-quiescent" if dff["quiet"][0] != dff["quiet"][1] else "graph")
+            if sc["variant"] == "dropped":
+                # S no longer declares a producer whose output U asks for: U succeeds when its request
+                # arrives before the failed skip check of S detached the producer, and is refused for good
+                # afterwards.  Transaction level only (design.d/C02.md, "observed"); counted.
+                ctx.count(f"e2r:dropped:{sc['ukind']}:position-dependent:{what}")
+                continue
+            ctx.add_failure("oracle", "rerun-positions", f"C02:rerun:{sc['variant']}:{sc['ukind']}:{what}",
+                            f"step {sc['S']} is executed again and re-declares its products while {sc['U']} asks for "
+                            f"files of that subtree: the state after both completed and nothing is dispatchable any "
+                            f"more depends on where the request arrived (position 0 versus {dff['k']}: "
+                            f"{dff['rc'][0]} versus {dff['rc'][1]})", witness=_rerun_wit(r, dff))
+    # ---- a worker that is refused a detached input is dispatched again at once (counted, see design.d)
+    bd = b3.run_busy_defer_scenario()
+    ctx.count(f"scenario:busy_defer:j1={bd['j1']}:starved={bd['starved']}:runs_of_worker={bd['worker_runs']}")
     # ---- witnesses classified as findings: the system-level scenario decides
     for name, w in WITNESSES.items():
         if w["cls"] != "finding":
@@ -352,6 +440,8 @@ def _e3_items(ctx):
     # timing bookkeeping (start/stop stamps behind amend()'s freshness test and the post-run input
     # check): consumer reads, producer stops, unrelated steps start and stop, consumer amends
     items += [("timing", 10000 * ctx.seed + i, 0) for i in range(ctx.scale(30, 250))]
+    # second builds: re-executed sub-plans versus siblings that use what was declared under them
+    items += [("rerun", 10000 * ctx.seed + i, 0) for i in range(ctx.scale(30, 500))]
     return items
 
 
@@ -371,6 +461,9 @@ def _e3_schedules(ctx):
         ctx.count(f"e3:max_running={r['max_running']}")
         for c in r["meta"].get("conflicts", []):
             ctx.count(f"e3:seeded:{c[0]}")
+        if r["item"][0] == "rerun":
+            ctx.count("e3:rerun:" + ("a worker was deferred in some schedule" if r["meta"]["deferred_somewhere"]
+                                     else "no defer"))
         for kind, sched, detail in r["diffs"]:
             ctx.add_failure("oracle", "e3-schedules", f"C02:e3:{kind}",
                             f"project {r['item']} differs between schedule j1 and {sched}: {kind}",
@@ -428,6 +521,14 @@ def replay(ctx, obj):
         if r["j1"]["cls"] != r["j2"]["cls"]:
             ctx.add_failure("oracle", f"scenario:{name}", WITNESSES[name]["signature"],
                             f"-j1 ends {r['j1']['cls']}, -j2 ends {r['j2']['cls']}", witness=w)
+        return
+    if w.get("kind") == "e2-rerun":
+        r = rr.run_scenario(w["seed"])
+        for dff in r.get("diffs", [])[:1]:
+            sc = r["sc"]
+            what = "rc-class" if dff["rc"][0] != dff["rc"][1] else ("not-quiescent" if dff["quiet"][0] != dff["quiet"][1] else "graph")
+            ctx.add_failure("oracle", "rerun-positions", f"C02:rerun:{sc['variant']}:{sc['ukind']}:{what}",
+                            f"position 0 versus {dff['k']}", witness=_rerun_wit(r, dff))
         return
     if w.get("kind") == "e3-case":
         r = b3.run_case(tuple(w["item"]))
